@@ -118,6 +118,15 @@ NextRow == /\ pc = "NextRow"
 Next == AddRow \/ Start \/ Load \/ Count \/ RfiScatter \/ Units \/ Trim \/ Desaturate \/ Density \/ Store \/ NextRow
 Spec == Init /\ [][Next]_vars /\ WF_vars(Next)
 
+(* ---- a healthy beads row (process_beads_table): the gated beads sample is       *)
+(* to_rfi(scatter + all fluorescence channels); start_end(250, 100); high_low on    *)
+(* the scatter channels for integer data; density2d on scatter at the row fraction  *)
+(* with smoothing 5; the calibration is then get_transform_fxn on that sample.      *)
+BeadsProgram(isInt) ==
+  <<Call("to_rfi", <<"scatter+fluorescence">>), Call("start_end", <<250, 100>>)>>
+  \o (IF isInt THEN <<Call("high_low", <<"scatter">>)>> ELSE <<>>)
+  \o <<Call("density2d", <<"scatter", "row-fraction", "logicle", "sigma5">>)>>
+
 (* ---- the statistics sheet: columns added per reported channel, in this order,   *)
 (* each <<column suffix, library statistic, computed on positive events only>>     *)
 StatColumns == << <<"Mean", "mean", FALSE>>, <<"Geom. Mean", "gmean", TRUE>>, <<"Median", "median", FALSE>>,
